@@ -6,6 +6,7 @@ THEOREMS = [
     "C14_schedule_complete_by", "C14_reward_schedule_complete_by",
     "C14_add_locked_exact", "C14_unlock_exact", "C14_unlock_all_eventually", "C14_penalty_draw_exact",
     "C14_creation_deposit_locked", "C14_table_sum_is_locked_funds_and_solvent", "C14_invariant_preserved",
+    "C14_balance_check_never_fails",
     "C14_rejected_call_changes_nothing", "C14_no_early_unlock_except_penalty", "C14_locked_conserved",
     "C14_rewards_lock_75_percent", "C14_locked_reward_is_three_quarters",
     "C14_withdraw_bound", "C14_withdraw_payee_and_caller", "C14_withdraw_quota_and_expiry",
